@@ -25,9 +25,9 @@ const (
 type Fault struct {
 	ID        int64     `json:"id"`
 	Mode      FaultMode `json:"mode"`
-	AtBcast   int       `json:"at_broadcast,omitempty"`   // crash: index of the broadcast being interrupted (1-based)
-	Reach     []int64   `json:"reached,omitempty"`        // crash: recipients that still get that broadcast
-	StartAt   string    `json:"start_at,omitempty"`       // late start: virtual time
+	AtBcast   int       `json:"at_broadcast,omitempty"` // crash: index of the broadcast being interrupted (1-based)
+	Reach     []int64   `json:"reached,omitempty"`      // crash: recipients that still get that broadcast
+	StartAt   string    `json:"start_at,omitempty"`     // late start: virtual time
 	startAt   time.Duration
 	bcasts    int
 	happened  bool
@@ -36,29 +36,37 @@ type Fault struct {
 
 // TimelyMeta describes a timely case.
 type TimelyMeta struct {
-	N        int      `json:"n"`
-	Instance int64    `json:"instance"`
-	Timer    string   `json:"timer"`
-	DutyType string   `json:"duty_type"`
-	Faults   []*Fault `json:"faults"`
-	T1       string   `json:"shortest_round_timeout"`
-	MaxLat   string   `json:"max_latency"`
-	Starts   map[int64]string `json:"start_offsets"`
-	LateInputs map[int64]string `json:"late_inputs,omitempty"`
+	N           int              `json:"n"`
+	Instance    int64            `json:"instance"`
+	Timer       string           `json:"timer"`
+	DutyType    string           `json:"duty_type"`
+	Faults      []*Fault         `json:"faults"`
+	T1          string           `json:"shortest_round_timeout"`
+	MaxLat      string           `json:"max_latency"`
+	Starts      map[int64]string `json:"start_offsets"`
+	LateInputs  map[int64]string `json:"late_inputs,omitempty"`
+	CompareFlow bool             `json:"compare_flow,omitempty"`
+}
+
+func compareWaits(s *Sim) int {
+	s.mu.Lock()
+	defer s.mu.Unlock()
+
+	return s.CompareWaits
 }
 
 // TimelyResult is a finished timely case.
 type TimelyResult struct {
-	Meta        TimelyMeta
-	Sim         *Sim
-	Trace       []string
-	Findings    []Finding
-	LastFault   time.Duration
-	RoundAtFault map[int64]int64
-	DecideRound  map[int64]int64
+	Meta             TimelyMeta
+	Sim              *Sim
+	Trace            []string
+	Findings         []Finding
+	LastFault        time.Duration
+	RoundAtFault     map[int64]int64
+	DecideRound      map[int64]int64
 	RoundsAfterFault map[int64]int64 // decided round - round at last fault, per running member
-	Events      int
-	SubsetKey   string
+	Events           int
+	SubsetKey        string
 }
 
 type desEv struct {
@@ -72,11 +80,13 @@ type desEv struct {
 
 type evHeap []desEv
 
-func (h evHeap) Len() int            { return len(h) }
-func (h evHeap) Less(i, j int) bool  { return h[i].at < h[j].at || (h[i].at == h[j].at && h[i].seq < h[j].seq) }
-func (h evHeap) Swap(i, j int)       { h[i], h[j] = h[j], h[i] }
-func (h *evHeap) Push(x any)         { *h = append(*h, x.(desEv)) }
-func (h *evHeap) Pop() any           { o := *h; x := o[len(o)-1]; *h = o[:len(o)-1]; return x }
+func (h evHeap) Len() int { return len(h) }
+func (h evHeap) Less(i, j int) bool {
+	return h[i].at < h[j].at || (h[i].at == h[j].at && h[i].seq < h[j].seq)
+}
+func (h evHeap) Swap(i, j int) { h[i], h[j] = h[j], h[i] }
+func (h *evHeap) Push(x any)   { *h = append(*h, x.(desEv)) }
+func (h *evHeap) Pop() any     { o := *h; x := o[len(o)-1]; *h = o[:len(o)-1]; return x }
 
 // shortestRoundTimeout asks the real timer implementation for the shortest time a round can last
 // (rounds 1..k). The relative timers (inc, linear) give each round its own duration from the moment
@@ -150,6 +160,17 @@ func RunTimelyCaseBound(rng *rand.Rand, idx int, boundMult int) *TimelyResult {
 		all = append(all, int64(i))
 	}
 	cfg := Config{N: n, Instance: meta.Instance, FIFOLimit: 100, Honest: all, TimerKind: meta.Timer, Duty: duty}
+	// Attester duties may run the compare flow (chain-split halt feature): every member compares the
+	// leader's proposal with its own attestation data, which it holds from the start ("with their
+	// proposals available").
+	if duty.Type == core.DutyAttester && rng.Intn(2) == 0 {
+		meta.CompareFlow = true
+		cfg.NeedsSource, cfg.SrcPreloaded = map[int64]bool{}, map[int64]int64{}
+		for _, id := range all {
+			cfg.NeedsSource[id] = true
+			cfg.SrcPreloaded[id] = 7
+		}
+	}
 	s := New(cfg)
 	res := &TimelyResult{Meta: meta, Sim: s, RoundAtFault: map[int64]int64{}, DecideRound: map[int64]int64{}, RoundsAfterFault: map[int64]int64{},
 		SubsetKey: fmt.Sprintf("n%d/%v", n, faultyIDs)}
@@ -327,6 +348,16 @@ func RunTimelyCaseBound(rng *rand.Rand, idx int, boundMult int) *TimelyResult {
 					push(e)
 					break
 				}
+				if p.Started && !p.Exited && !p.Crashed && p.CompareBlocked {
+					// the transport buffers what arrives while the member waits inside Compare
+					e.at = s.now + time.Millisecond
+					if d, ok := p.TimerArmed(); ok && d > s.now {
+						e.at = d + time.Duration(1+rng.Intn(1000))*time.Nanosecond // Compare returns when the round timer fires
+					}
+					push(e)
+
+					break
+				}
 				if p.Started && !p.Exited && !p.Crashed {
 					tr("deliver p%d <- %s", e.proc, e.msg)
 					timersBefore, uponBefore := p.timersCreated, len(s.Upon)
@@ -357,6 +388,12 @@ func RunTimelyCaseBound(rng *rand.Rand, idx int, boundMult int) *TimelyResult {
 					if noRestart != "" {
 						sig += "/a-member-accepted-a-proposal-without-restarting-its-round-timer"
 						what += "; " + noRestart
+					}
+					// Shape: every member held its local compare value from the start, so Compare never has to
+					// wait for it; a member that did wait has lost the value it already read.
+					if w := compareWaits(s); meta.CompareFlow && w > 0 {
+						sig += "/a-member-waited-in-compare-for-a-local-value-it-already-had"
+						what += fmt.Sprintf("; %d Compare call(s) waited for the local value although every member's value was available from the start", w)
 					}
 					res.Findings = append(res.Findings, Finding{"C04", sig, what})
 					stop = true
